@@ -7,9 +7,13 @@ import os
 import shutil
 import tempfile
 
+import contextlib
+
 import common
 import concretise
 import driver
+import ioproxy
+import themes
 import tlc
 
 CONFIGS = [("mem", 1), ("mem", 0), ("csv", 1), ("csv", 0)]
@@ -62,36 +66,117 @@ def _init(repo, scratch):
 
 
 def _record(job):
-    """job = (trace id, kind, auto_index, ops, battery, ntk, nfk)"""
-    tid, kind, ai, ops, battery, ntk, nfk = job
+    """job = (trace id, kind, auto_index, ops, battery, ntk, nfk[, opts])
+    opts: {"io": True} records I/O-level observations through the run-time proxies (CSV only);
+          {"csv": {...}} CSVStorage keyword arguments."""
+    tid, kind, ai, ops, battery, ntk, nfk = job[:7]
+    opts = job[7] if len(job) > 7 else {}
     tf, th = _W["tf"], _W["th"]
+    if opts.get("theme"):
+        th = themes.get(opts["theme"])
     path = None
+    tmpdir = None
     if kind == "csv":
-        fd, path = tempfile.mkstemp(prefix="t%d-" % os.getpid(), suffix=".csv", dir=_W["scratch"])
-        os.close(fd)
-        os.unlink(path)
-    d = driver.Db(tf, th, kind, bool(ai), path=path, ntk=ntk, nfk=nfk)
+        d0 = tempfile.mkdtemp(prefix="t%d-" % os.getpid(), dir=_W["scratch"])
+        path = os.path.join(d0, "db.csv")
+        tmpdir = os.path.join(d0, "tmp")
+        os.mkdir(tmpdir)
+    want_io = bool(opts.get("io")) and kind == "csv"
+    nostore = bool(opts.get("nostore"))
+    mode = opts.get("mode")
+    csv_opts = dict(opts.get("csv") or {})
     events = []
+    saved_tmp = tempfile.tempdir
+    ctx = ioproxy.Installed(tf.storages, path) if want_io else contextlib.nullcontext(None)
+    d = None
     try:
-        init = d.contents()
-        valid0 = d.valid()
-        for a in ops:
-            exc, res = d.execute(a)
-            store = d.contents()
-            ev = {"a": a, "exc": exc, "res": res, "store": store, "valid": d.valid(),
-                  "ix": d.index_obs(store, battery)}
-            events.append(ev)
-            if any(p["t"] == driver.UNKNOWN for p in store):
-                break
+        if tmpdir:
+            tempfile.tempdir = tmpdir
+        if kind == "csv" and (opts.get("prefill") or mode in ("r", "a")):
+            pre = driver.Db(tf, th, kind, False, path=path, ntk=ntk, nfk=nfk,
+                            csv_opts={k: v for k, v in csv_opts.items() if k != "access_mode"})
+            pts = opts.get("prefill_points") or []
+            for i in range(0, len(pts), 500):
+                pre.db.insert_multiple([th.point(tf, ap) for ap in pts[i:i + 500]])
+            pre.close()
+        if mode:
+            csv_opts["access_mode"] = mode
+        with ctx as rec:
+            d = driver.Db(tf, th, kind, bool(ai), path=path, ntk=ntk, nfk=nfk, csv_opts=csv_opts)
+            if kind == "mem" and opts.get("prefill_points"):
+                d.db.insert_multiple([th.point(tf, ap) for ap in opts["prefill_points"]])
+            init = d.contents()
+            valid0 = d.valid()
+            for a in ops:
+                if rec is not None:
+                    rec.events = []
+                    before = rec.db_bytes()
+                    tmp_before = _leftovers(tmpdir, os.path.dirname(path))
+                exc, res = d.execute(a)
+                if nostore:
+                    ev = {"a": a, "exc": exc, "res": res, "store": [], "valid": d.valid(), "nostore": 1,
+                          "ix": {"n": 0, "q": [], "live": [], "fresh": []}}
+                    ev["valid"] = 0        # no index observation without contents
+                    if a["op"] == "reopen" and not exc:
+                        data = open(path, "rb").read()
+                        ev["io"] = {"snaps": [], "file": d.decode_bytes(data), "reopened": d.reopened_contents(),
+                                    "same": 1, "tmp": 0, "calls": []}
+                    events.append(ev)
+                    continue
+                store = d.contents()
+                ev = {"a": a, "exc": exc, "res": res, "store": store, "valid": d.valid(),
+                      "ix": d.index_obs(store, battery)}
+                if rec is not None:
+                    ev["io"] = io_obs(d, rec, before, a, tmpdir, os.path.dirname(path), tmp_before)
+                events.append(ev)
+                if any(p["t"] == driver.UNKNOWN for p in store):
+                    break                # the specification cannot adopt such contents; the trace ends here
     finally:
-        d.close()
+        tempfile.tempdir = saved_tmp
+        if d is not None:
+            d.close()
         if path:
-            for f in (path,):
-                try:
-                    os.unlink(f)
-                except OSError:
-                    pass
-    return {"id": tid, "kind": kind, "auto_index": ai, "init": init, "valid0": valid0, "events": events}
+            shutil.rmtree(os.path.dirname(path), ignore_errors=True)
+    out = {"id": tid, "kind": kind, "auto_index": ai, "init": init, "valid0": valid0, "events": events}
+    if mode:
+        out["mode"] = mode
+    return out
+
+
+def _leftovers(tmpdir, dbdir):
+    return sorted(os.listdir(tmpdir)) + sorted(f for f in os.listdir(dbdir) if f not in ("db.csv", "tmp"))
+
+
+def io_obs(d, rec, before, a, tmpdir, dbdir, tmp_before):
+    """Summarise the I/O calls of one API call for the trace specification."""
+    was = rec.enabled
+    rec.enabled = False
+    try:
+        snaps, seen = [], set()
+        snap_calls = []
+        calls = []
+        old_len = len(before or b"")
+        for e in rec.events:
+            b = e["bytes"]
+            if b is not None and b not in seen:
+                seen.add(b)
+                snaps.append(d.decode_bytes(b))
+                snap_calls.append(e["call"] + ":" + e["f"])
+            if e["f"] == "db":
+                cur = b or b""
+                info = e.get("info", {})
+                atend = 1
+                if e["call"] == "truncate":
+                    atend = 1 if len(cur) >= old_len else 0
+                calls.append({"call": e["call"], "prefix": 1 if cur[:old_len] == (before or b"")[:old_len] and len(cur) >= old_len else 0,
+                              "atend": atend})
+        after = rec.db_bytes()
+        left = [f for f in _leftovers(tmpdir, dbdir) if f not in tmp_before]
+        return {"snaps": snaps, "file": d.decode_bytes(after or b""), "reopened": d.reopened_contents(),
+                "same": 1 if after == before else 0, "tmp": len(left), "calls": calls, "ncalls": len(rec.events),
+                "snap_calls": snap_calls}
+    finally:
+        rec.enabled = was
 
 
 def record_all(jobs, nproc=16):
@@ -115,7 +200,7 @@ def judge(traces, workers=16, timeout=3000):
         try:
             path = os.path.join(scratch, "traces.json")
             with open(path, "w") as fh:
-                json.dump({"traces": [{"id": t["id"], "init": t["init"], "valid0": t["valid0"], "events": t["events"]}
+                json.dump({"traces": [{k: t[k] for k in ("id", "init", "valid0", "events", "mode") if k in t}
                                       for t in part]}, fh)
             cfg = tlc.cfg_text(init="TraceInit", next_="TraceNext", constants={"AutoIndex": bool(ai)},
                                invariants=["Verdict", "TraceTyped"])
@@ -136,6 +221,11 @@ def judge(traces, workers=16, timeout=3000):
     return verdicts, stats
 
 
-def failing_event(trace, verdict):
-    step = verdict["err"]["step"]
-    return trace["events"][step - 1]
+def errors(verdict):
+    """list of error records [step, clause, expected] of a verdict (TLC prints <<>> as {})"""
+    e = verdict.get("errs", [])
+    return [] if e == {} else e
+
+
+def failing_event(trace, err):
+    return trace["events"][err["step"] - 1]
